@@ -475,6 +475,15 @@ Theorem c12_vcf_read_record_ascii_chunk_indep :
 Proof. exact (@d_vcf_read_record_ascii_spec). Qed.
 Print Assumptions c12_vcf_read_record_ascii_chunk_indep.
 
+(* ---- read_line to the end of the input (gtf::io::Reader::read_line; the line step of the
+   read_line-based record readers of sam / vcf / gtf): the raw lines of the data, one per call *)
+Theorem c12_read_lines_any_delivery :
+  forall data sc cap, 1 <= cap ->
+    exists st', run_read_lines cap (mkSource data sc)
+                = (map (fun l => (length l, strip_eol l)) (Layout.lines data), st').
+Proof. exact run_read_lines_spec. Qed.
+Print Assumptions c12_read_lines_any_delivery.
+
 (* ---- non-vacuity *)
 (* a script with 1-byte deliveries and an Interrupted in the middle: read_exact 4 of "abcdef" *)
 Example c12_example_read_exact :
